@@ -197,8 +197,6 @@ func TestHandler(t *testing.T) {
 		}
 		var h logslog.Handler = slog.NewSlogHandler(base, opts)
 		slog.SetFlags(vlib.BaseFlags)
-		debug := L == slog.DebugLevel
-
 		// derivation chain
 		var chain []deriv
 		taken := map[string]bool{}
@@ -249,15 +247,12 @@ func TestHandler(t *testing.T) {
 				if rapid.IntRange(0, 2).Draw(t, "debugModeChangesBetweenRecords") == 0 {
 					// the handler has answered Enabled and handled records: the process-wide debug mode changes now
 					switch {
-					case debug:
+					case is.DebugMode():
 						is.SetDebugMode(false)
-						debug = false
 					case rapid.Bool().Draw(t, "throughAnotherLoggersSetLevel"):
 						slog.New("elsewhere").SetLevel(slog.DebugLevel) // documented side effect: debug mode on
-						debug = true
 					default:
 						is.SetDebugMode(true)
-						debug = true
 					}
 					labels["debug-mode-changed-between-records"] = true
 				}
@@ -330,7 +325,7 @@ func TestHandler(t *testing.T) {
 			ns, std := namesake[level]
 			wantEnabled := true
 			if std {
-				wantEnabled = model.Admit(L, ns, debug)
+				wantEnabled = model.Admit(L, ns, is.DebugMode())
 				if got := h.Enabled(ctx, level); got != wantEnabled {
 					vlib.Discrep(t, "C15/enabled", "C15 handler(level=%v, chain=%d).Enabled(%v) = %v, the logger's gating says %v", L, len(chain), level, got, wantEnabled)
 				}
@@ -369,6 +364,12 @@ func TestHandler(t *testing.T) {
 				// a record handed to Handle without asking Enabled first did not come "through a log/slog.Logger": whether
 				// the handler drops what the level refuses or writes it is not stated
 				labels["direct-handle-of-a-refused-level-dropped"] = true
+				goto classify
+			}
+			if !std && L == slog.OffLevel && len(writes) == 0 {
+				// a level without a namesake passes the handler's Enabled; an Off logger admits nothing (C01's first
+				// clause) - that it writes such a record on the current tree is not something this statement asks for
+				labels["no-namesake-level-dropped-by-an-off-logger"] = true
 				goto classify
 			}
 			switch {
@@ -492,13 +493,11 @@ func TestBridge(t *testing.T) {
 			lg.SetColorMode(false)
 		}
 		lg.SetLevel(L)
-		debug := L == slog.DebugLevel
 		std := slog.NewLogLogger(lg, S)
 		built := L
 		if rapid.IntRange(0, 2).Draw(t, "levelChangedAfterBridgeBuilt") == 0 {
 			L = rapid.SampledFrom(vlib.Builtins).Draw(t, "laterLevel")
 			lg.SetLevel(L) // admission is decided per message by the logger's CURRENT level
-			debug = debug || L == slog.DebugLevel
 		}
 		desc := fmt.Sprintf("logger level %v (was %v when the bridge was built), bridge severity %v, %s(%q), format %s", L, built, S, how, msg, format)
 		if how == "Writer" {
@@ -508,7 +507,7 @@ func TestBridge(t *testing.T) {
 			for i := rapid.IntRange(0, 3).Draw(t, "moreChunks"); i > 0; i-- {
 				chunks = append(chunks, rapid.StringMatching(`[a-z]{1,8}( [a-z]{1,8}){0,3}`).Draw(t, "chunk")+"\n")
 			}
-			admit := model.Admit(L, S, debug)
+			admit := model.Admit(L, S, is.DebugMode())
 			var copied int64
 			var cerr error
 			func() {
@@ -579,7 +578,7 @@ func TestBridge(t *testing.T) {
 			text += "\n"
 		}
 		wantMsg := strings.TrimSuffix(text, "\n")
-		admit := model.Admit(L, S, debug)
+		admit := model.Admit(L, S, is.DebugMode())
 		writes := log.Writes()
 		if admit != (len(writes) == 1) || len(writes) > 1 {
 			vlib.Discrep(t, "C15/bridge-gate", "C15 bridge %s: %d records emitted, the logger's gating says admitted=%v", desc, len(writes), admit)
